@@ -110,6 +110,13 @@ COMPONENTS = [
     Component('deep-random', check, strategy=D.deep_random_cases,
               budget={'quick': 4800, 'thorough': 96000},
               describe='random chains of explicit depth 1..64 with 1-2 faults'),
+    Component('dictionary', check, cases=D.dictionary_cases,
+              distinct_by_construction=True,
+              describe='well-formed frames built around every identifier-like literal '
+                       'harvested from the tree under test (auto-dictionary)'),
+    Component('wellformed', check, strategy=D.wellformed_cases,
+              budget={'quick': 4800, 'thorough': 160000},
+              describe='well-formed wire frames without any fault'),
     Component('hostile-keys', check, cases=D.hostile_key_cases,
               distinct_by_construction=True, exhaustive=True,
               describe='templating-hostile table keys x every way a value can fail x '
